@@ -16,13 +16,14 @@ def pre(tier):
     return dict(oracle_checked=ref.self_check(2))
 
 
-def h_matmul(env, N):
-    """Pauli.__matmul__ == reference product; acq == reference anticommutation; no drift (one inductive step)"""
+def h_matmul(env, N, dtype='int64'):
+    """Pauli.__matmul__ == reference product; acq == reference anticommutation; no drift (one inductive step).
+    dtype: element type of the operands' string arrays (uint8: rows of utils.binary_repr; unsigned arithmetic wraps)"""
     M = Mods(env)
     g = env.bits('g', (2, 2 * N))
     p = env.phases('p', (2,))
-    A = M.pa.Pauli(g[0].copy(), p[0])
-    B = M.pa.Pauli(g[1].copy(), p[1])
+    A = M.pa.Pauli(as_dtype(env, g[0], dtype), p[0])
+    B = M.pa.Pauli(as_dtype(env, g[1], dtype), p[1])
     r = env.run(lambda: A @ B)
     env.goal('no_exception', b_not(r.raised))
     C = r.value
@@ -215,6 +216,8 @@ def jobs(tier):
     nmax = 3 if tier == 'quick' else 5
     for N in range(1, nmax + 1):
         J.append(dict(harness=('c01', 'h_matmul'), params=dict(N=N)))
+        if N <= 2:
+            J.append(dict(harness=('c01', 'h_matmul'), params=dict(N=N, dtype='uint8')))
         if N <= 3:
             J.append(dict(harness=('c01', 'h_assoc'), params=dict(N=N)))
         elif N == 4:
